@@ -180,3 +180,15 @@ Print Assumptions C11_plan_closed_under_interrupts.
 Theorem C11_plan_before_fix_refuted : exists phases, ewf (eplan false phases false) = false.
 Proof. eexists. exact eplan_before_fix_open. Qed.
 Print Assumptions C11_plan_before_fix_refuted.
+
+(* The probing phase: whatever the probe request meets - any response, a local URL, ANY requests error, Ctrl-C - the phase is
+   opened and closed exactly once and the run finishes properly; it is ERROR exactly when the probe errored. *)
+Theorem C11_probing_phase_closed : forall b rest stop0, ewf (eplan true (probing_phase b :: rest) stop0) = true.
+Proof. exact probing_closed. Qed.
+Print Assumptions C11_probing_phase_closed.
+
+Theorem C11_probing_phase_status : forall b,
+  e_ki (probing_phase b) = KiNone ->
+  e_status (probing_phase b) = match b with PbRequestError => ERROR | _ => SUCCESS end.
+Proof. exact probing_status. Qed.
+Print Assumptions C11_probing_phase_status.
